@@ -87,6 +87,17 @@ PROPS["C13"] = {
               U("TestVerif_C13_RunLoop", PROC, R(300), R(3000, shards=16, timeout=1200))],
 }
 
+PROPS["C14"] = {
+    "rule": "reachable aggregation states (signed-without-quorum, parked-only, completed, late-with-stored-VAA) followed by 3..60 cleanup "
+            "ticks with generated gaps (1 s .. 10 h, biased to 30 s and to the 5 min / 1 h thresholds), further observations between ticks, "
+            "request queues of capacity 0/1/2/50 drained or not; plus four deterministic histories that exhaust the 14400-retry budget; "
+            "non-trivial = at least one retry and at least one expiry in the case",
+    "assumptions": ["virtual time = shifting firstObserved/lastRetry of every entry (the only inputs the routine derives ages from); ages are kept 0.5 s off the whole-second thresholds and cases whose real execution could blur that are inconclusive",
+                    "retry budget 14400 is the value at the pinned commit", "'about' is read as: lower bounds 4 min (parked) / 50 min (completed), upper bound two ticks after the threshold"],
+    "units": [U("TestVerif_C14_Schedule", PROC, R(4000), R(20000, shards=16, timeout=1200)),
+              U("TestVerif_C14_Budget", PROC, {"checks": 0, "shards": 1, "timeout": 600}, {"checks": 0, "shards": 1, "timeout": 600}, kind="plain")],
+}
+
 def setup():
     """MANIFEST.setup_cmd: create stubs and warm the build cache for every harness binary."""
     work = os.path.join(vdriver.WORKROOT, "setup-%d" % os.getpid())
